@@ -68,6 +68,7 @@ class Site:
     node: ast.BinOp
     k: Fraction | None  # modulus / pi  (None: not a multiple of pi)
     sinks: list = field(default_factory=list)
+    returned: list = field(default_factory=list)
     status: str = "nosink"  # "sink" | "nosink" (compared / returned only) | "unknown" (reaches a gate through arithmetic ...)
     note: str = ""
 
@@ -204,6 +205,45 @@ def _pos(n):
     return (getattr(n, "lineno", 0), getattr(n, "col_offset", 0))
 
 
+def _follow_name(ix, f: FuncInfo, name, st, par, site, via):
+    """sinks of the local ``name`` bound by statement ``st`` of ``f`` (until it is re-bound)"""
+    redefs = sorted(_pos(x) for x in ast.walk(f.node) if isinstance(x, ast.Name) and x.id == name and isinstance(x.ctx, ast.Store)
+                    and _pos(x) > (st.end_lineno, 10**6))
+    end = redefs[0] if redefs else (10**9, 0)
+    for u in ast.walk(f.node):
+        if isinstance(u, ast.Name) and u.id == name and isinstance(u.ctx, ast.Load) and (st.end_lineno, 0) < _pos(u) < end:
+            s = _arg_slot(u, par)
+            if s is not None:
+                _add_slot(ix, f, site, s + (via,))
+            else:
+                # returned as (part of) the function result?  remember the position for one level of callers
+                p = par.get(u)
+                if isinstance(p, ast.Return):
+                    site.returned.append((f, None))
+                elif isinstance(p, ast.Tuple) and isinstance(par.get(p), ast.Return):
+                    site.returned.append((f, p.elts.index(u)))
+
+
+def _add_slot(ix, f, site, slot):
+    call, arg, how, via = slot
+    g = resolve_gate(ix, f, call)
+    if g is None:
+        return
+    if how == "arith":
+        if site.status != "sink":
+            site.status = "unknown"
+            site.note = f"reaches {g.name}(...) through arithmetic ({norm(arg)[:50]}); effective modulus not derived"
+        return
+    p = gate_param_of_arg(ix, g, call, arg)
+    if p is None:
+        if site.status != "sink":
+            site.status = "unknown"
+            site.note = f"argument position of {g.name}(...) could not be mapped to a matrix parameter"
+        return
+    site.status = "sink"
+    site.sinks.append(Sink(g, p, call, via))
+
+
 def scan_function(ix, f: FuncInfo):
     from .cfg import walk_shallow
 
@@ -216,51 +256,65 @@ def scan_function(ix, f: FuncInfo):
     for n in mods:
         k = pi_multiple(n.right)
         site = Site(f.module.relpath, f, n, k)
+        site.returned = []
         sites.append(site)
         if k is None:
             site.note = "modulus is not a literal multiple of pi"
             continue
-        slots = []  # (call, argnode, how, via)
         s = _arg_slot(n, par)
         if s is not None:
-            slots.append(s + ("direct",))
+            _add_slot(ix, f, site, s + ("direct",))
         for name, st in _assigned_names(n, par):
-            # later re-assignments of the name end the reach of this definition
-            redefs = sorted(_pos(x) for x in ast.walk(f.node) if isinstance(x, ast.Name) and x.id == name and isinstance(x.ctx, ast.Store)
-                            and _pos(x) > _pos(st))
-            end = redefs[0] if redefs else (10**9, 0)
-            for u in ast.walk(f.node):
-                if isinstance(u, ast.Name) and u.id == name and isinstance(u.ctx, ast.Load) and (st.end_lineno, 0) < _pos(u) < end:
-                    s = _arg_slot(u, par)
-                    if s is not None:
-                        slots.append(s + (name,))
-        for call, arg, how, via in slots:
-            g = resolve_gate(ix, f, call)
-            if g is None:
-                continue
-            if how == "arith":
-                site.status = "unknown" if site.status != "sink" else site.status
-                site.note = f"reaches {g.name}(...) through arithmetic ({norm(arg)[:50]}); effective modulus not derived"
-                continue
-            p = gate_param_of_arg(ix, g, call, arg)
-            if p is None:
-                if site.status != "sink":
-                    site.status = "unknown"
-                    site.note = f"argument position of {g.name}(...) could not be mapped to a matrix parameter"
-                continue
-            site.status = "sink"
-            site.sinks.append(Sink(g, p, call, via))
+            _follow_name(ix, f, name, st, par, site, name)
     return sites
 
 
 def scan_modulo_sites(ix, modules_pred):
-    """every ``%`` site of the functions (methods, nested functions) of the selected modules"""
+    """every ``%`` site of the functions (methods, nested functions) of the selected modules; a reduced
+    value that is returned (alone or at a tuple position) is followed into the callers — within the same
+    selection of modules — that unpack the call result (one level)."""
     out = []
-    for m in ix.modules.values():
-        if "%" not in m.source or not modules_pred(m):
+    mods = [m for m in ix.modules.values() if modules_pred(m)]
+    for m in mods:
+        if "%" not in m.source:
             continue
         for f in ix.funcs_in(m):
             out.extend(scan_function(ix, f))
+    exported = {}
+    for s in out:
+        for fn, idx in getattr(s, "returned", []):
+            if fn.parent is None and fn.cls is None:
+                exported.setdefault(fn.name, []).append((fn, idx, s))
+    if exported:
+        for m in mods:
+            if not any(nm in m.source for nm in exported):
+                continue
+            for f in ix.funcs_in(m):
+                par = None
+                for st in ast.walk(f.node):
+                    if not (isinstance(st, ast.Assign) and isinstance(st.value, ast.Call) and len(st.targets) == 1):
+                        continue
+                    fn = st.value.func
+                    last = fn.attr if isinstance(fn, ast.Attribute) else (fn.id if isinstance(fn, ast.Name) else None)
+                    if last not in exported:
+                        continue
+                    r = ix.resolve_expr(f.module, fn)
+                    for callee, idx, site in exported[last]:
+                        if r is not callee:
+                            continue
+                        t = st.targets[0]
+                        if idx is None and isinstance(t, ast.Name):
+                            name = t.id
+                        elif idx is not None and isinstance(t, (ast.Tuple, ast.List)) and idx < len(t.elts) and isinstance(t.elts[idx], ast.Name) \
+                                and not any(isinstance(e, ast.Starred) for e in t.elts):
+                            name = t.elts[idx].id
+                        else:
+                            continue
+                        par = par or _parents(f.node)
+                        # only in the function that owns the statement (nested functions are visited through it)
+                        if any(st in ast.walk(sub) for sub in ast.walk(f.node) if isinstance(sub, (ast.FunctionDef, ast.AsyncFunctionDef)) and sub is not f.node):
+                            continue
+                        _follow_name(ix, f, name, st, par, site, f"{callee.name}() -> {name} in {f.qualname}")
     return out
 
 
